@@ -337,3 +337,22 @@ pub fn program_corpus() -> Vec<String> {
     }
     out
 }
+
+/// The reading of a term that is written without parentheses, stated independently of the parser: unary minus binds tightest, then
+/// `*`, `/`, `\\` (left to right), then `+`, `-` (left to right), then `..`. Each pair must parse to the same rule; otherwise the
+/// translators (and the reference semantics of this harness, which sees the parsed tree) are given another program than the text says.
+pub fn check_precedence(fails: &mut Vec<Failure>) {
+    let pairs: &[(&str, &str)] = &[
+        ("-X/2", "(-X)/2"), ("-X\\2", "(-X)\\2"), ("-X*2", "(-X)*2"), ("-(X+1)/2", "(-(X+1))/2"), ("- X / Y", "(-X)/Y"), ("--X/2", "(-(-X))/2"), ("-X+1", "(-X)+1"), ("-X..Y", "(-X)..Y"), ("1-X/2", "1-(X/2)"),
+        ("1+2*3", "1+(2*3)"), ("1*2+3", "(1*2)+3"), ("1-2-3", "(1-2)-3"), ("8/2/2", "(8/2)/2"), ("8/2*2", "(8/2)*2"), ("7\\4\\2", "(7\\4)\\2"), ("7*2\\4", "(7*2)\\4"), ("7\\2*4", "(7\\2)*4"), ("1-2+3", "(1-2)+3"),
+        ("1..2+3", "1..(2+3)"), ("1+2..3", "(1+2)..3"), ("1..X*2", "1..(X*2)"), ("X-1..X+1", "(X-1)..(X+1)"), ("1+X/2-1", "(1+(X/2))-1"), ("-1-X", "(-1)-X"), ("X - -1", "X-(-1)"), ("2*-X", "2*(-X)"), ("X/-2", "X/(-2)"),
+    ];
+    for (a, b) in pairs {
+        for (l, r) in [(format!("p({a}) :- q(X), q(Y)."), format!("p({b}) :- q(X), q(Y).")), (format!("p :- q(X), q(Y), {a} = X."), format!("p :- q(X), q(Y), {b} = X.")), (format!("p :- q(X), q(Y), not r({a})."), format!("p :- q(X), q(Y), not r({b})."))] {
+            match (asp::Program::from_str(&l), asp::Program::from_str(&r)) {
+                (Ok(x), Ok(y)) => if x != y { for prop in ["C01", "C08", "C14"] { fails.push(Failure { property: prop, input: l.clone(), detail: format!("is read as `{x}`, not as `{y}`: the text without parentheses must be the program `{r}`") }); } },
+                _ => fails.push(Failure { property: "harness", input: l.clone(), detail: "precedence pair does not parse".into() }),
+            }
+        }
+    }
+}
